@@ -27,6 +27,8 @@ PROPOSED_KNOWN = [
      "what": "constant.go complexConst.binaryOp: imaginary part of a complex product computed as bc-ad instead of bc+ad ((1+2i)*(3+4i) = -5+2i, 7*1i = -7i)"},
     {"kind": "known", "signature": {"fam": "const", "fail": "value", "root": "quo", "typed": 1, "xf64": 0},
      "what": "typed float/complex constants with integral values are kept as int64Const, so / is integer division (float64(7)/float64(2) == 3, complex128(1+1i)/complex128(2) == 0)"},
+    {"kind": "known", "signature": {"fam": "const", "fail": "value", "root": "quo", "oc": "complex", "typed": 0, "xf64": 0},
+     "what": "complexConst.binaryOp divides the integer parts of untyped complex constants with integer division: 1i / 2 == 0, (3+1i) / 2 == 1"},
     {"kind": "known", "signature": {"fam": "const", "fail": "accepts-invalid", "opk": "intonly", "oc": "float", "typed": 1},
      "what": "checker binaryOp on two constants never consults operatorsOfKind: % & | ^ &^ accepted on typed float constants with integral values (float64(7) % 2)"},
     {"kind": "known", "signature": {"fam": "const", "fail": "accepts-invalid", "opk": "intonly", "oc": "complex", "typed": 1},
@@ -41,9 +43,9 @@ PROPOSED_KNOWN = [
      "what": "complexConst.binaryOp implements == but not !=: 1i != 2i is rejected (operator != not defined on complex128)"},
     {"kind": "known", "signature": {"fam": "const", "fail": "rejects-valid", "root": "conv", "to": "uint", "xf64": 0},
      "what": "float64Const.representedBy(unsigned) tests float64(int64(f)) == f, which fails for 2^63 <= f < 2^64: uint64(9223372036854775808.0) is rejected as truncated"},
-    {"kind": "known", "signature": {"fam": "const", "fail": "type", "opk": "shift", "ka": "u.float"},
+    {"kind": "known", "signature": {"fam": "const", "fail": "type", "fsh": 1},
      "what": "constant shift with an untyped float left operand yields an untyped float (Go: untyped int): 1.0 << 3 has default type float64, (1.0<<3)/16 == 0.5"},
-    {"kind": "known", "signature": {"fam": "const", "fail": "value-unusable", "opk": "shift", "ka": "u.complex"},
+    {"kind": "known", "signature": {"fam": "const", "fail": "value-unusable", "fsh": 1},
      "what": "constant shift with an untyped complex left operand (0i << 1) yields an integer constant typed untyped complex; using it (var v int64 = c) panics in reflect.Value.Convert inside the compiler"},
     {"kind": "known", "signature": {"fam": "const", "fail": "value", "xprec": 1, "typed": 1, "xf64": 0},
      "what": "an untyped constant that float64 can only hold after rounding (1<<53+1) is not rounded when it is implicitly converted to a typed float64/complex128 operand: 9007199254740993 + complex128(1.5i) keeps 54 bits (same cause as float64(9223372036854775807))"},
@@ -131,7 +133,7 @@ def judge(ctx, step, recs, par=PAR):
     return bads, stats
 
 
-ECHO = ("expr", "src", "reflit", "vt", "dt", "ik")
+ECHO = ("expr", "src", "reflit", "vt", "dt")
 
 
 def case_from_obs(o):
@@ -146,13 +148,13 @@ def echoes(o, c):
 def show(o):
     return {"src": rig.b2s(o["src"]), "builds": o["builds"], "msg": rig.b2s(o["msg"])[:160], "chk": o["chk"],
             "chkmsg": rig.b2s(o["chkmsg"])[:160], "reflit": rig.b2s(o["reflit"])[:80], "eq": o["eq"],
-            "vt": o["vt"], "v": o["v"] if o["hasv"] else None, "dtobs": o["dtobs"], "ikobs": o["ikobs"]}
+            "vt": o["vt"], "v": o["v"] if o["hasv"] else None, "dtobs": o["dtobs"]}
 
 
 def same_outcome(a, b):
     """scriggo observation vs oracle observation of the same programs"""
     return (a["builds"] == b["builds"] and a["eq"] == b["eq"] and a["hasv"] == b["hasv"]
-            and a["v"] == b["v"] and a["dtobs"] == b["dtobs"] and a["ikobs"] == b["ikobs"]
+            and a["v"] == b["v"] and a["dtobs"] == b["dtobs"]
             and (a["builds"] != "ok" or (a["chk"] == "ran") == (b["chk"] == "ran"))
             and all(same_outcome(x, y) for x, y in zip(a["kids"], b["kids"])))
 
